@@ -184,6 +184,7 @@ func cmdVerify(argv []string) {
 			}
 			rep := ex.verifyFunction(fn, t.con)
 			res.Functions = append(res.Functions, rep)
+			ex.structuralObligations(res, fn, t.con)
 			if rep.Error != "" {
 				res.Errors = append(res.Errors, rep.Func+": "+rep.Error)
 			}
